@@ -2,9 +2,12 @@ package bkl
 
 import (
 	"bytes"
+	"errors"
 	"fmt"
+	"io"
 	"regexp"
 	"strconv"
+	"strings"
 
 	"gopkg.in/yaml.v3"
 )
@@ -49,19 +52,36 @@ func yamlUnmarshalStream(in []byte) ([]any, error) {
 	ret := []any{}
 
 	for _, s := range parts {
-		var node yaml.Node
+		// A part can still hold several documents: "--- # comment",
+		// "--- {a: 1}" and "--- " do not match yamlRE. Decode them all
+		// rather than silently dropping everything after the first.
+		dec := yaml.NewDecoder(strings.NewReader(s))
+		found := false
 
-		err := yaml.Unmarshal([]byte(s), &node)
-		if err != nil {
-			return nil, err
+		for {
+			var node yaml.Node
+
+			err := dec.Decode(&node)
+			if errors.Is(err, io.EOF) {
+				break
+			}
+
+			if err != nil {
+				return nil, err
+			}
+
+			obj, err := yamlTranslateNode(&node)
+			if err != nil {
+				return nil, err
+			}
+
+			ret = append(ret, obj)
+			found = true
 		}
 
-		obj, err := yamlTranslateNode(&node)
-		if err != nil {
-			return nil, err
+		if !found {
+			ret = append(ret, nil)
 		}
-
-		ret = append(ret, obj)
 	}
 
 	return ret, nil
